@@ -178,14 +178,20 @@ def hkl_one(inp, covered=None):
     out = []
     c, smin, smax, cc = inp['cell'], inp['sintlmin'], inp['sintlmax'], inp['cell_choice']
     spg = sg.sg(sgno=inp['sgno'], cell_choice=cc)
+    import zlib
     for fn in ('genhkl_unique', 'genhkl_all'):
-        np.random.seed(7)
-        a = getattr(T, fn)(c, smin, smax, sgno=inp['sgno'], cell_choice=cc, output_stl=True)
-        np.random.seed(7)
-        b = getattr(L, fn)(c, smin, smax, sgno=inp['sgno'], cell_choice=cc, output_stl=True)
-        covered.add(fn)
-        if not same(a, b):
-            out.append({'fn': fn, 'input': inp, 'observed': {'tools_rows': len(a), 'laue_rows': len(b)}, 'expected': 'identical lists', 'known_id': None})
+        # the flag as callers pass it (bool, 0/1 of a FABLE input file, numpy.bool_), the setting as a run-time string
+        k = zlib.crc32(repr((fn, inp['sgno'], cc, [round(float(x), 6) for x in c])).encode())
+        for want in ((True, False) if k % 4 == 0 else (True,)):
+            ostl = gens.flag(want, k // 4)
+            np.random.seed(7)
+            a = getattr(T, fn)(c, smin, smax, sgno=inp['sgno'], cell_choice=gens.fresh_str(cc), output_stl=ostl)
+            np.random.seed(7)
+            b = getattr(L, fn)(c, smin, smax, sgno=inp['sgno'], cell_choice=gens.fresh_str(cc), output_stl=ostl)
+            covered.add(fn)
+            if not same(a, b) or (len(a) > 0 and np.asarray(a).ndim == 2 and np.asarray(a).shape[1] != (4 if want else 3)):
+                out.append({'fn': fn, 'input': dict(inp, output_stl=repr(ostl)), 'observed': {'tools_shape': list(np.asarray(a).shape), 'laue_shape': list(np.asarray(b).shape)},
+                            'expected': 'identical lists with %d columns' % (4 if want else 3), 'known_id': None})
     a = T.genhkl_base(c, spg.syscond, smin, smax, spg.crystal_system, spg.Laue, spg.cell_choice, True)
     b = L.genhkl_base(c, spg.syscond, smin, smax, spg.crystal_system, spg.Laue, spg.cell_choice, True)
     covered.add('genhkl_base')
